@@ -8,6 +8,8 @@ configuration.
 """
 
 import hashlib
+import os
+import tempfile
 import numpy as np
 from pathlib import Path
 
@@ -65,10 +67,19 @@ class GreensFunctionCache:
         )
         path = self.cache_dir / f"{key}.npz"
         if path.exists():
+            try:
+                with np.load(path) as data:
+                    result = (
+                        (data["X"], data["Y"], data["Z"]),
+                        data["conc"],
+                        data["flx"],
+                    )
+            except Exception as e:
+                # truncated or corrupt entry (e.g. interrupted run): a miss
+                logger.warning("Ignoring unreadable cache entry %s: %s", key[:12], e)
+                return None
             logger.debug("Cache hit: %s", key[:12])
-            data = np.load(path)
-            grid = (data["X"], data["Y"], data["Z"])
-            return grid, data["conc"], data["flx"]
+            return result
         logger.debug("Cache miss: %s", key[:12])
         return None
 
@@ -92,7 +103,17 @@ class GreensFunctionCache:
         )
         path = self.cache_dir / f"{key}.npz"
         X, Y, Z = grid
-        np.savez(path, X=X, Y=Y, Z=Z, conc=conc, flx=flx)
+        # write to a temporary name and rename, so that concurrent readers and
+        # interrupted runs never see a partial entry
+        fd, tmp = tempfile.mkstemp(dir=self.cache_dir, suffix=".tmp")
+        try:
+            with os.fdopen(fd, "wb") as f:
+                np.savez(f, X=X, Y=Y, Z=Z, conc=conc, flx=flx)
+            os.replace(tmp, path)
+        except BaseException:
+            if os.path.exists(tmp):
+                os.unlink(tmp)
+            raise
         logger.debug("Cached: %s", key[:12])
 
     def clear(self):
